@@ -261,6 +261,18 @@ def run(eng, ctx):
                     pre = (info.get("pre") or {}).get(mv)
                     if endv in (("bin", "&", lm, dec), ("bin", "&", dec, lm)) and pre is not None and (SH._nonneg(pre) or (tst[0] == "cmp" and tst[1] == ">")):
                         witness = f"`{mv} &= {mv} - 1` clears one set bit of a non-negative value per iteration until none is left"
+            # W4c: m >>= k (k a positive constant) on a non-negative m, on every way round the loop: the value at least halves until it is 0
+            if witness is None and info.get("test") is not None and not info.get("body_dead"):
+                tst = info["test"]
+                mv = tst[2] if (tst[0] == "loop" and tst[1] == lid) else (tst[2][2] if (tst[0] == "cmp" and tst[1] in ("!=", ">") and tst[2][0] == "loop" and tst[2][1] == lid and tst[3] == ("const", 0)) else None)
+                if mv is not None:
+                    lm = ("loop", lid, mv)
+                    shifted = lambda v: v is not None and v[0] == "bin" and v[1] == ">>" and v[2] == lm and is_const(v[3]) and isinstance(v[3][1], int) and not isinstance(v[3][1], bool) and v[3][1] > 0  # noqa: E731
+                    endv = (info.get("body_end") or {}).get(mv)
+                    pre = (info.get("pre") or {}).get(mv)
+                    conts = [st.env.get(mv) for k, st in info.get("ends", []) if k == "continue"]
+                    if shifted(endv) and all(shifted(v) for v in conts) and pre is not None and (SH._nonneg(pre) or (tst[0] == "cmp" and tst[1] == ">")):
+                        witness = f"`{mv} >>= {endv[3][1]}` on every way round the loop: a non-negative value reaches 0 after finitely many shifts"
             # W4: counting loop - the test bounds a local that every iteration increases by a positive constant
             if witness is None and info.get("test") is not None and not info.get("body_dead"):
                 conjs = info["test"][1] if info["test"][0] == "and" else (info["test"],)
